@@ -6,7 +6,7 @@
    R4: upgrade-only proofs sent to an empty replica. *)
 From HC Require Import Base NMap Codec CodecFacts Crypto FlatTree Storage Oplog Merkle Core.
 From HC Require Import FlatTreeFacts Sound NoPanic TreeRef CoreFacts.
-From Coq Require Import ZifyN ZifyNat ZifyBool.
+From Coq Require Import FMapPositive ZifyN ZifyNat ZifyBool.
 Ltac Zify.zify_post_hook ::= Z.div_mod_to_equations.
 Arguments N.add : simpl never.
 Arguments N.sub : simpl never.
@@ -442,6 +442,24 @@ Proof.
     cbn [sib_indices]. constructor; assumption.
 Qed.
 
+(* (definitions whose body mentions CLIMB are unfolded in the goal, never in a hypothesis: the
+   conversion check at Qed otherwise unrolls the fuel) *)
+Lemma nodes_to_root_inv index nodes head r :
+  nodes_to_root index nodes head = Ok r ->
+  r = it_index (it_up (N.to_nat nodes) (it_new index)) /\ (N.to_nat nodes < CLIMB)%nat /\
+  (forall j, (0 < j <= N.to_nat nodes)%nat -> it_contains (it_up j (it_new index)) head = false).
+Proof. unfold nodes_to_root. apply nodes_to_root_loop_inv. Qed.
+
+Lemma block_and_seek_proof_value_inv t tf ix nodes last sr root p p1 :
+  block_and_seek_proof t tf (Some (mkIndexed true ix nodes last)) false sr root p = Ok p1 ->
+  exists p' l, block_proof_loop CLIMB t tf (it_new ix) root false sr p [] = Ok (p', l) /\
+    p1 = mkLp (lp_seek p') (Some l) (lp_upgrade p') (lp_additional p').
+Proof.
+  unfold block_and_seek_proof. cbn [ix_index ix_value].
+  destruct (negb (it_contains (it_new root) ix)); [discriminate|]. cbn [bind]. intros H.
+  apply bind_ok in H. destruct H as ([p' l] & Hl & H). injection H as <-. eauto.
+Qed.
+
 (* the shape of a block-only proof *)
 Theorem block_only_proof_shape t tf i nodes vp :
   create_valueless_proof t tf (Some (mkReqBlock i nodes)) None None None = Ok vp ->
@@ -469,15 +487,13 @@ Proof.
   cbn [negb bind] in H.
   (* nodes_to_root *)
   pose proof Hsub as Hsub0.
-  unfold nodes_to_root in Hsub. apply nodes_to_root_loop_inv in Hsub.
+  apply nodes_to_root_inv in Hsub.
   destruct Hsub as (Es & _ & Hc).
   assert (Eup : forall j, it_up j (it_new (2 * i)) = it_up_n j (it_new (2 * i)))
     by (intros j; apply it_up_up_n, wf_new).
   rewrite Eup in Es.
   (* block_and_seek_proof *)
-  unfold block_and_seek_proof in H1. cbn [ix_index ix_value] in H1.
-  destruct (negb (it_contains (it_new sub) (2 * i))); [discriminate H1|]. cbn [bind] in H1.
-  apply bind_ok in H1. destruct H1 as ([p' l] & Hl & H1). injection H1 as <-.
+  apply block_and_seek_proof_value_inv in H1. destruct H1 as (p' & l & Hl & ->).
   apply (block_proof_loop_shape t tf CLIMB (N.to_nat nodes)) in Hl;
     [|apply it_new_is_at | exact Es].
   destruct Hl as (-> & sibs & -> & HF). cbn [rev app] in *.
@@ -494,3 +510,1311 @@ Proof.
   split; [intros j Hj; rewrite <- Eup; apply Hc, Hj|].
   split; [reflexivity|]. apply orb_false_iff in E0. lia.
 Qed.
+
+(* ---------- nodes are stored under their own index ---------- *)
+
+Definition unflushed_indexed (t : mtree) : Prop :=
+  forall k n, nm_get k (t_unflushed t) = Some n -> n_index n = k.
+
+Lemma node_get_index t tf i am n :
+  unflushed_indexed t -> node_get t tf i am = Ok (Some n) -> n_index n = i.
+Proof.
+  intros U. unfold node_get. destruct (nm_get i (t_unflushed t)) as [m|] eqn:E.
+  - destruct (node_blank m).
+    + destruct am; discriminate.
+    + intros [= <-]. apply (U _ _ E).
+  - intros H. apply bind_ok in H. destruct H as (off & _ & H).
+    destruct (f_read tf off NODE_SIZE) as [data|].
+    + destruct (node_blank (node_from_bytes i data)).
+      * destruct am; discriminate H.
+      * injection H as <-. reflexivity.
+    + destruct am; discriminate H.
+Qed.
+
+Lemma required_node_index t tf i n :
+  unflushed_indexed t -> required_node t tf i = Ok n -> n_index n = i.
+Proof.
+  intros U H. unfold required_node in H. apply bind_ok in H. destruct H as ([m|] & Hg & H); [|discriminate H].
+  injection H as <-. apply (node_get_index _ _ _ _ _ U Hg).
+Qed.
+
+Lemma optional_node_index t tf i n :
+  unflushed_indexed t -> optional_node t tf i = Ok (Some n) -> n_index n = i.
+Proof. intros U H. apply (node_get_index _ _ _ _ _ U H). Qed.
+
+(* maintenance: every way the model changes t_unflushed inserts under n_index *)
+Lemma add_nodes_indexed l : forall m,
+  (forall k n, nm_get k m = Some n -> n_index n = k) ->
+  forall k n, nm_get k (add_nodes m l) = Some n -> n_index n = k.
+Proof.
+  unfold add_nodes. induction l as [|x l IH]; intros m Hm; cbn [fold_left]; [exact Hm|].
+  apply IH. intros k n. rewrite nm_get_set. destruct (k =? n_index x) eqn:E.
+  - intros [= <-]. apply N.eqb_eq in E. now symmetry.
+  - apply Hm.
+Qed.
+
+Lemma unflushed_indexed_add_node t n : unflushed_indexed t -> unflushed_indexed (tree_add_node t n).
+Proof.
+  intros U. unfold unflushed_indexed, tree_add_node. cbn [t_unflushed].
+  apply (add_nodes_indexed [n]). exact U.
+Qed.
+
+Lemma unflushed_indexed_add_all l : forall t,
+  unflushed_indexed t -> unflushed_indexed (fold_left tree_add_node l t).
+Proof.
+  induction l as [|n l IH]; intros t U; cbn [fold_left]; [exact U|].
+  apply IH, unflushed_indexed_add_node, U.
+Qed.
+
+Lemma unflushed_indexed_commit t c t' :
+  unflushed_indexed t -> tree_commit t c = Ok t' -> unflushed_indexed t'.
+Proof.
+  intros U. unfold tree_commit. destruct (negb (commitable t c)); [discriminate|].
+  destruct (cs_upgraded c).
+  - destruct (cs_ancestors c <? cs_orig_length c); [discriminate|].
+    intros [= <-]. unfold unflushed_indexed. cbn [t_unflushed]. apply add_nodes_indexed, U.
+  - intros [= <-]. unfold unflushed_indexed. cbn [t_unflushed]. apply add_nodes_indexed, U.
+Qed.
+
+Lemma unflushed_indexed_empty roots l bl fk sg : unflushed_indexed (mkTree roots l bl fk sg nm_empty).
+Proof. intros k n. cbn [t_unflushed]. rewrite nm_get_empty. discriminate. Qed.
+
+Lemma unflushed_indexed_flush t t' ops :
+  tree_flush t = Ok (t', ops) -> unflushed_indexed t'.
+Proof.
+  unfold tree_flush. destruct (forallb _ _); [|discriminate]. intros [= <- _].
+  apply unflushed_indexed_empty.
+Qed.
+
+Lemma unflushed_indexed_open ht tf t : tree_open ht tf = Ok t -> unflushed_indexed t.
+Proof.
+  unfold tree_open. intros H. apply bind_ok in H. destruct H as ([[roots bl] l2] & _ & H).
+  apply bind_ok in H. destruct H as (sg & _ & H). injection H as <-. apply unflushed_indexed_empty.
+Qed.
+
+(* ---------- the verifier on an honest block-only proof ---------- *)
+
+Section Verifier.
+  Variable cr : crypto.
+
+  (* what the climb computes when nothing fails *)
+  Fixpoint climb_ref (ns : list node) (it : fiter) (cur : node) (acc : list node) : node * list node :=
+    match ns with
+    | [] => (cur, acc)
+    | n :: r =>
+        let p := it_parent (it_sibling it) in
+        let pn := mkNode (it_index p) (n_length cur + n_length n) (parent_hash cr cur n) in
+        climb_ref r p pn (acc ++ [n; pn])
+    end.
+
+  Lemma q_length_plain ns : q_length (mkQ ns None) = N.of_nat (length ns).
+  Proof. unfold q_length. cbn [q_nodes q_extra]. lia. Qed.
+
+  (* structural success: each sibling sits at the index q_shift is asked for, sums fit in u64 *)
+  Lemma climb_plain_ok : forall ns fuel it cur acc,
+    (length ns < fuel)%nat ->
+    Forall2 (fun idx n => n_index n = idx) (sib_indices (length ns) it) ns ->
+    n_length cur + lens ns <= u64_max ->
+    climb cr fuel (mkQ ns None) it cur acc = Ok (climb_ref ns it cur acc).
+  Proof.
+    induction ns as [|n ns IH]; intros fuel it cur acc Hf HF Hs;
+      (destruct fuel as [|f]; [cbn [length] in Hf; lia|]); rewrite climb_S, q_length_plain.
+    - reflexivity.
+    - cbn [length] in *. destruct (N.of_nat (S (length ns)) =? 0) eqn:E; [lia|].
+      cbn [sib_indices] in HF. inversion HF as [|? ? ? ? Hn HF']; subst.
+      cbv zeta. unfold q_shift. cbn [q_extra q_nodes]. rewrite Hn, N.eqb_refl. cbn [bind].
+      rewrite lens_cons in Hs. rewrite NoPanic.add64_ok by lia. cbn [bind climb_ref].
+      apply IH; [lia | exact HF' | cbn [n_length]; lia].
+  Qed.
+
+  Lemma climb_ref_index : forall ns it cur acc,
+    n_index cur = it_index it ->
+    n_index (fst (climb_ref ns it cur acc)) = it_index (it_up_n (length ns) it).
+  Proof.
+    induction ns as [|n ns IH]; intros it cur acc Hi; cbn [climb_ref length it_up_n fst]; [exact Hi|].
+    apply IH. reflexivity.
+  Qed.
+
+  Lemma climb_ref_length : forall ns it cur acc,
+    n_length (fst (climb_ref ns it cur acc)) = n_length cur + lens ns.
+  Proof.
+    induction ns as [|n ns IH]; intros it cur acc; cbn [climb_ref fst].
+    - unfold lens. cbn [map sumN]. lia.
+    - rewrite IH, lens_cons. cbn [n_length]. lia.
+  Qed.
+
+  Lemma climb_ref_visited : forall ns it cur acc, exists ext,
+    snd (climb_ref ns it cur acc) = acc ++ ext /\ length ext = (2 * length ns)%nat /\
+    (forall n, In n ns -> In n ext).
+  Proof.
+    induction ns as [|n ns IH]; intros it cur acc; cbn [climb_ref snd].
+    - exists []. rewrite app_nil_r. repeat split. intros n [].
+    - destruct (IH (it_parent (it_sibling it))
+                   (mkNode (it_index (it_parent (it_sibling it))) (n_length cur + n_length n)
+                           (parent_hash cr cur n))
+                   (acc ++ [n; mkNode (it_index (it_parent (it_sibling it))) (n_length cur + n_length n)
+                                      (parent_hash cr cur n)])) as (ext & E & L & I).
+      eexists. rewrite E, <- app_assoc. split; [reflexivity|]. split.
+      + rewrite app_length, L. cbn [length]. lia.
+      + intros m [<-|Hm]; [apply in_or_app; left; left; reflexivity|].
+        apply in_or_app. right. apply I, Hm.
+  Qed.
+
+  (* the converse direction of Sound.climb_all_sound: honest inputs give the honest root *)
+  Lemma climb_ref_honest T : forall ns it cur acc,
+    consistent_path cr T (length ns) it ->
+    n_index cur = it_index it ->
+    n_hash cur = n_hash (T (it_index it)) -> n_length cur = n_length (T (it_index it)) ->
+    Forall (fun n => n = T (n_index n)) ns ->
+    Forall2 (fun idx n => n_index n = idx) (sib_indices (length ns) it) ns ->
+    let r := fst (climb_ref ns it cur acc) in
+    n_hash r = n_hash (T (n_index r)) /\ n_length r = n_length (T (n_index r)).
+  Proof.
+    induction ns as [|n ns IH]; intros it cur acc Hp Hi Hh Hl Hn HF; cbn [climb_ref fst].
+    - cbv zeta. cbn [climb_ref fst]. rewrite Hi. auto.
+    - cbn [length sib_indices] in *. inversion Hp as [|k it0 Hat Hp' Ek Eit]; subst k it0.
+      inversion Hn as [|? ? Hn1 Hn']; subst. inversion HF as [|? ? ? ? Hi1 HF']; subst.
+      destruct Hat as (Ah & Al & Ai & Ais & _).
+      apply IH; try assumption; cbn [n_index n_hash n_length]; try reflexivity.
+      + rewrite Ah. apply parent_hash_length_split.
+        * now rewrite Hi, Ai.
+        * now rewrite Hi1, Ais.
+        * now rewrite Hh.
+        * rewrite Hn1 at 1. now rewrite Hi1.
+        * rewrite Hl. rewrite Hn1 at 1. now rewrite Hi1.
+      + rewrite Al, Hl. rewrite Hn1 at 1. now rewrite Hi1.
+  Qed.
+
+  (* verify_tree on a block section whose sibling list has the right indices *)
+  Theorem block_only_climb_agrees i v ns c :
+    Forall2 (fun idx n => n_index n = idx) (sib_indices (length ns) (it_new (2 * i))) ns ->
+    i * 2 <= u64_max ->
+    len v + lens ns <= u64_max ->
+    exists r visited,
+      verify_tree cr (Some (mkDataBlock i v ns)) None None c = Ok (Some r, cs_push_nodes c visited) /\
+      (r, visited) = climb_ref ns (it_new (2 * i)) (block_node cr (2 * i) v) [block_node cr (2 * i) v] /\
+      n_index r = it_index (it_up_n (length ns) (it_new (2 * i))) /\
+      n_length r = len v + lens ns /\
+      (exists ext, visited = block_node cr (2 * i) v :: ext /\ length ext = (2 * length ns)%nat /\
+                   forall n, In n ns -> In n ext).
+  Proof.
+    intros HF Hi Hs.
+    destruct (climb_ref ns (it_new (2 * i)) (block_node cr (2 * i) v) [block_node cr (2 * i) v])
+      as [r visited] eqn:E.
+    exists r, visited.
+    split.
+    { unfold verify_tree. cbn [db_index db_value db_nodes]. rewrite NoPanic.mul64_ok by exact Hi.
+      cbn [bind]. rewrite Sound.it_index_it_new, (N.mul_comm i 2).
+      rewrite climb_plain_ok; [rewrite E; reflexivity | lia | exact HF | cbn [block_node n_length]; exact Hs]. }
+    split; [reflexivity|].
+    pose proof (climb_ref_index ns (it_new (2 * i)) (block_node cr (2 * i) v) [block_node cr (2 * i) v]) as H1.
+    pose proof (climb_ref_length ns (it_new (2 * i)) (block_node cr (2 * i) v) [block_node cr (2 * i) v]) as H2.
+    destruct (climb_ref_visited ns (it_new (2 * i)) (block_node cr (2 * i) v) [block_node cr (2 * i) v])
+      as (ext & H3 & H4 & H5).
+    rewrite E in H1, H2, H3. cbn [fst snd] in *.
+    split; [apply H1; cbn [block_node n_index]; now rewrite Sound.it_index_it_new|].
+    split; [exact H2|]. exists ext. auto.
+  Qed.
+
+  (* ... the root it computes carries the writer's hash (and length) *)
+  Theorem block_only_root_honest T i v ns :
+    consistent_path cr T (length ns) (it_new (2 * i)) ->
+    T (2 * i) = block_node cr (2 * i) v ->
+    Forall (fun n => n = T (n_index n)) ns ->
+    Forall2 (fun idx n => n_index n = idx) (sib_indices (length ns) (it_new (2 * i))) ns ->
+    let r := fst (climb_ref ns (it_new (2 * i)) (block_node cr (2 * i) v) [block_node cr (2 * i) v]) in
+    n_hash r = n_hash (T (n_index r)) /\ n_length r = n_length (T (n_index r)).
+  Proof.
+    intros Hp HT Hn HF. apply climb_ref_honest; try assumption.
+    - cbn [block_node n_index]. now rewrite Sound.it_index_it_new.
+    - now rewrite Sound.it_index_it_new, HT.
+    - now rewrite Sound.it_index_it_new, HT.
+  Qed.
+
+  (* the honest block-only proof is accepted by verify_proof *)
+  Theorem block_only_accepted T rt rtf fork i v ns pk :
+    consistent_path cr T (length ns) (it_new (2 * i)) ->
+    T (2 * i) = block_node cr (2 * i) v ->
+    Forall (fun n => n = T (n_index n)) ns ->
+    Forall2 (fun idx n => n_index n = idx) (sib_indices (length ns) (it_new (2 * i))) ns ->
+    i * 2 <= u64_max -> len v + lens ns <= u64_max ->
+    (forall ri, ri = it_index (it_up_n (length ns) (it_new (2 * i))) ->
+       exists n, required_node rt rtf ri = Ok n /\ n_hash n = n_hash (T ri)) ->
+    exists r visited,
+      (r, visited) = climb_ref ns (it_new (2 * i)) (block_node cr (2 * i) v) [block_node cr (2 * i) v] /\
+      n_index r = it_index (it_up_n (length ns) (it_new (2 * i))) /\
+      n_hash r = n_hash (T (n_index r)) /\ n_length r = n_length (T (n_index r)) /\
+      verify_proof cr rt rtf (mkProof fork (Some (mkDataBlock i v ns)) None None None) pk
+        = Ok (cs_push_nodes (tree_changeset rt) visited).
+  Proof.
+    intros Hp HT Hn HF Hi Hs Hst.
+    destruct (block_only_climb_agrees i v ns (tree_changeset rt) HF Hi Hs)
+      as (r & visited & Hv & E & Hri & _ & _).
+    pose proof (block_only_root_honest T i v ns Hp HT Hn HF) as Hh. cbv zeta in Hh.
+    rewrite <- E in Hh. cbn [fst] in Hh. destruct Hh as [Hh Hl].
+    exists r, visited. split; [exact E|]. split; [exact Hri|]. split; [exact Hh|]. split; [exact Hl|].
+    unfold verify_proof. cbn [p_block p_hash p_seek p_upgrade p_fork]. rewrite Hv. cbn [bind].
+    destruct (Hst (n_index r) Hri) as (n & Hr & Hnh). rewrite Hr. cbn [bind].
+    assert (B : bytes_eqb (n_hash n) (n_hash r) = true) by (apply bytes_eqb_eq; congruence).
+    rewrite B. reflexivity.
+  Qed.
+
+  (* verify_tree only pushes nodes: every other field of the changeset is kept *)
+  Definition cs_frame (c c' : changeset) : Prop :=
+    cs_length c' = cs_length c /\ cs_ancestors c' = cs_ancestors c /\
+    cs_byte_length c' = cs_byte_length c /\ cs_batch_length c' = cs_batch_length c /\
+    cs_fork c' = cs_fork c /\ cs_roots c' = cs_roots c /\ cs_hash c' = cs_hash c /\
+    cs_signature c' = cs_signature c /\ cs_upgraded c' = cs_upgraded c /\
+    cs_orig_length c' = cs_orig_length c /\ cs_orig_fork c' = cs_orig_fork c.
+
+  Lemma cs_frame_refl c : cs_frame c c.
+  Proof. unfold cs_frame. tauto. Qed.
+
+  Lemma cs_frame_push c l : cs_frame c (cs_push_nodes c l).
+  Proof. unfold cs_frame, cs_push_nodes. cbn. tauto. Qed.
+
+  Lemma cs_frame_trans a b c : cs_frame a b -> cs_frame b c -> cs_frame a c.
+  Proof. unfold cs_frame. intros H1 H2. repeat split; (etransitivity; [apply H2 | apply H1]). Qed.
+
+  Lemma vt_seek_frame c sn root c' : vt_seek cr c sn = Ok (root, c') -> cs_frame c c'.
+  Proof.
+    unfold vt_seek. destruct sn as [|n0 rest].
+    - intros [= _ <-]. apply cs_frame_refl.
+    - cbv zeta. intros H. apply bind_ok in H. destruct H as ([n q] & _ & H).
+      apply bind_ok in H. destruct H as ([r visited] & _ & H). injection H as _ <-.
+      apply cs_frame_push.
+  Qed.
+
+  Lemma vt_main_frame root c u root' c' : vt_main cr root c u = Ok (root', c') -> cs_frame c c'.
+  Proof.
+    unfold vt_main. destruct u as [[[value index] nodes]|].
+    - cbv zeta. intros H. apply bind_ok in H. destruct H as ([n q] & _ & H).
+      apply bind_ok in H. destruct H as ([r visited] & _ & H). injection H as _ <-.
+      apply cs_frame_push.
+    - intros [= _ <-]. apply cs_frame_refl.
+  Qed.
+
+  Lemma verify_tree_frame block hash seek c root c' :
+    verify_tree cr block hash seek c = Ok (root, c') -> cs_frame c c'.
+  Proof.
+    rewrite verify_tree_eq. intros H. apply bind_ok in H. destruct H as (u & _ & H). cbv zeta in H.
+    assert (B : ('(root, c1) <- vt_seek cr c (match seek with Some s => ds_nodes s | None => [] end) ;;
+                 vt_main cr root c1 u) = Ok (root, c') -> cs_frame c c').
+    { intros H'. apply bind_ok in H'. destruct H' as ([r1 c1] & H1 & H2).
+      apply (cs_frame_trans _ c1); [apply (vt_seek_frame _ _ _ _ H1) | apply (vt_main_frame _ _ _ _ _ H2)]. }
+    destruct u as [x|]; [exact (B H)|].
+    destruct (match seek with Some s => ds_nodes s | None => [] end) as [|n0 rest] eqn:E.
+    - injection H as _ <-. apply cs_frame_refl.
+    - exact (B H).
+  Qed.
+
+  (* the changeset of an accepted proof without upgrade section is commitable, and committing it
+     only adds its nodes to the replica's unflushed map *)
+  Theorem verify_proof_commitable_block_only rt rtf fork ob oh os pk cs :
+    verify_proof cr rt rtf (mkProof fork ob oh os None) pk = Ok cs ->
+    cs_upgraded cs = false /\ cs_orig_length cs = t_length rt /\ cs_orig_fork cs = t_fork rt /\
+    cs_roots cs = t_roots rt /\ cs_length cs = t_length rt /\
+    commitable rt cs = true /\
+    tree_commit rt cs = Ok (mkTree (t_roots rt) (t_length rt) (t_byte_length rt) (t_fork rt)
+                              (t_signature rt) (add_nodes (t_unflushed rt) (cs_nodes cs))).
+  Proof.
+    intros H. apply verify_proof_accept_inv in H. cbn [p_block p_hash p_seek p_upgrade] in H.
+    destruct H as (root & c1 & Hv & -> & _).
+    apply verify_tree_frame in Hv.
+    destruct Hv as (F1 & F2 & F3 & F4 & F5 & F6 & F7 & F8 & F9 & F10 & F11).
+    cbn [tree_changeset cs_length cs_ancestors cs_byte_length cs_batch_length cs_fork cs_roots cs_hash
+         cs_signature cs_upgraded cs_orig_length cs_orig_fork] in *.
+    assert (C : commitable rt c1 = true).
+    { unfold commitable. rewrite F9, F10, F11, N.eqb_refl. cbn [andb]. lia. }
+    repeat split; try assumption.
+    unfold tree_commit. rewrite C, F9. reflexivity.
+  Qed.
+End Verifier.
+
+Lemma cs_nodes_push_fresh t l : cs_nodes (cs_push_nodes (tree_changeset t) l) = l.
+Proof.
+  unfold cs_nodes, cs_push_nodes, tree_changeset. cbn [cs_rnodes].
+  rewrite !rev_append_rev, !app_nil_r. apply rev_involutive.
+Qed.
+
+(* R1 + R2 together: the writer's own block-only proof, completed with the writer's block, is
+   accepted by a replica that stores (a node with) the writer's hash where the climb ends *)
+Theorem block_only_end_to_end cr T t tf rt rtf i nodes v pk vp :
+  unflushed_indexed t ->
+  (forall j n, required_node t tf j = Ok n -> n = T j) ->
+  create_valueless_proof t tf (Some (mkReqBlock i nodes)) None None None = Ok vp ->
+  consistent_path cr T (N.to_nat nodes) (it_new (2 * i)) ->
+  T (2 * i) = block_node cr (2 * i) v ->
+  (forall ns, vp_block vp = Some (mkDataHash i ns) -> len v + lens ns <= u64_max) ->
+  (exists n, required_node rt rtf (it_index (it_up_n (N.to_nat nodes) (it_new (2 * i)))) = Ok n /\
+             n_hash n = n_hash (T (it_index (it_up_n (N.to_nat nodes) (it_new (2 * i)))))) ->
+  exists ns cs,
+    vp = mkVproof (t_fork t) (Some (mkDataHash i ns)) None None None /\
+    length ns = N.to_nat nodes /\
+    verify_proof cr rt rtf (mkProof (vp_fork vp) (Some (mkDataBlock i v ns)) None None None) pk = Ok cs /\
+    cs_upgraded cs = false /\ commitable rt cs = true /\
+    (forall n, In n ns -> In n (cs_nodes cs)) /\
+    In (block_node cr (2 * i) v) (cs_nodes cs) /\
+    Forall (fun n => n = T (n_index n)) ns.
+Proof.
+  intros U HT Hc Hp HT0 Hs Hst.
+  apply block_only_proof_shape in Hc.
+  destruct Hc as (ns & -> & HL & HF & _ & _ & _ & Fi & _).
+  cbn [vp_block vp_fork] in *. specialize (Hs ns eq_refl).
+  assert (HF' : Forall2 (fun idx n => n_index n = idx) (sib_indices (length ns) (it_new (2 * i))) ns).
+  { rewrite HL. clear -HF U. induction HF as [|idx n li ln Hr HF IH]; constructor; [|exact IH].
+    apply (required_node_index _ _ _ _ U Hr). }
+  assert (Hn : Forall (fun n => n = T (n_index n)) ns).
+  { clear -HF U HT. induction HF as [|idx n li ln Hr HF IH]; constructor; [|exact IH].
+    rewrite (required_node_index _ _ _ _ U Hr). apply (HT _ _ Hr). }
+  rewrite <- HL in Hp, Hst.
+  assert (Hi : i * 2 <= u64_max) by (unfold fits_u64 in Fi; lia).
+  destruct (block_only_accepted cr T rt rtf (t_fork t) i v ns pk Hp HT0 Hn HF' Hi Hs)
+    as (r & visited & E & _ & _ & _ & Hv).
+  { intros ri ->. exact Hst. }
+  exists ns, (cs_push_nodes (tree_changeset rt) visited).
+  split; [reflexivity|]. split; [exact HL|]. split; [exact Hv|].
+  destruct (verify_proof_commitable_block_only cr _ _ _ _ _ _ _ _ Hv) as (C1 & _ & _ & _ & _ & C2 & _).
+  split; [exact C1|]. split; [exact C2|].
+  rewrite cs_nodes_push_fresh.
+  destruct (climb_ref_visited cr ns (it_new (2 * i)) (block_node cr (2 * i) v) [block_node cr (2 * i) v])
+    as (ext & E1 & _ & E2).
+  rewrite <- E in E1. cbn [snd] in E1. subst visited.
+  split; [|split; [|exact Hn]].
+  - intros n Hin. apply in_or_app. right. apply E2, Hin.
+  - apply in_or_app. left. left. reflexivity.
+Qed.
+
+(* ====================================================================================== *)
+(* R3. the replica's missing-node count                                                    *)
+(* ====================================================================================== *)
+
+(* missing_loop climbs (with it_parent) while the node is absent and the span misses the head *)
+Lemma missing_loop_inv fuel : forall t tf it head count k,
+  missing_loop fuel t tf it head count = Ok k ->
+  exists m, k = count + N.of_nat m /\ (m < fuel)%nat /\
+    (forall j, (j < m)%nat -> it_contains (it_up j it) head = false /\
+                               optional_node t tf (it_index (it_up j it)) = Ok None) /\
+    (it_contains (it_up m it) head = true \/
+     (it_contains (it_up m it) head = false /\
+      exists n, optional_node t tf (it_index (it_up m it)) = Ok (Some n))).
+Proof.
+  induction fuel as [|f IH]; intros t tf it head count k H; [discriminate H|].
+  cbn [missing_loop] in H. destruct (it_contains it head) eqn:Ec.
+  - injection H as <-. exists 0%nat. cbn [it_up].
+    split; [lia|]. split; [lia|]. split; [intros j Hj; lia | left; exact Ec].
+  - apply bind_ok in H. destruct H as ([n|] & Ho & H).
+    + injection H as <-. exists 0%nat. cbn [it_up].
+      split; [lia|]. split; [lia|]. split; [intros j Hj; lia|].
+      right. split; [exact Ec|]. exists n. exact Ho.
+    + apply IH in H. destruct H as (m & -> & Hm & Hj & Hend).
+      exists (S m). cbn [it_up]. split; [lia|]. split; [lia|]. split; [|exact Hend].
+      intros j Hlt. destruct j as [|j]; cbn [it_up]; [auto|]. apply Hj. lia.
+Qed.
+
+(* the count returned for a block below the replica's length: the replica holds nothing on the
+   first k levels above the block, and at level k either the span reaches the replica's head or
+   the replica stores the node.  Levels are those of the prover / verifier climb (it_up_n). *)
+Theorem missing_nodes_gives_stored_root rt rtf i k :
+  missing_nodes rt rtf (2 * i) = Ok k ->
+  2 * i < 2 * t_length rt ->
+  let itk := it_up_n (N.to_nat k) (it_new (2 * i)) in
+  (N.to_nat k < CLIMB)%nat /\
+  (forall j, (j < N.to_nat k)%nat ->
+     it_contains (it_up_n j (it_new (2 * i))) (2 * t_length rt) = false /\
+     optional_node rt rtf (it_index (it_up_n j (it_new (2 * i)))) = Ok None) /\
+  (it_contains itk (2 * t_length rt) = true \/
+   (it_contains itk (2 * t_length rt) = false /\
+    exists n, optional_node rt rtf (it_index itk) = Ok (Some n))).
+Proof.
+  unfold missing_nodes. intros H Hlt.
+  assert (E : it_right_span_index (it_new (2 * i)) = 2 * i).
+  { unfold it_right_span_index, it_new.
+    replace (N.odd (2 * i)) with false by (rewrite FlatTreeFacts.odd_mod; lia).
+    cbn [it_index it_factor]. lia. }
+  rewrite E in H. destruct (2 * t_length rt <=? 2 * i) eqn:E1; [lia|].
+  apply missing_loop_inv in H. destruct H as (m & -> & Hm & Hj & Hend).
+  cbv zeta. replace (N.to_nat (0 + N.of_nat m)) with m by lia.
+  assert (Eup : forall j, it_up j (it_new (2 * i)) = it_up_n j (it_new (2 * i)))
+    by (intros j; apply it_up_up_n, wf_new).
+  split; [exact Hm|]. split.
+  - intros j Hlj. rewrite <- Eup. apply Hj, Hlj.
+  - rewrite <- Eup. exact Hend.
+Qed.
+
+Lemma wf_up j : forall it, wf it -> wf (it_up j it).
+Proof. induction j as [|j IH]; intros it H; cbn [it_up]; [exact H|]. apply IH, wf_parent, H. Qed.
+
+Lemma inspan_up j : forall it x, wf it -> inspan it x -> inspan (it_up j it) x.
+Proof.
+  induction j as [|j IH]; intros it x H Hs; cbn [it_up]; [exact Hs|].
+  apply IH; [apply wf_parent, H | apply inspan_parent; assumption].
+Qed.
+
+(* a span that holds x but not head, with x < head, lies entirely below head *)
+Lemma span_below (it : fiter) (x head head' : N) :
+  wf it -> inspan it x -> x < head -> head <= head' ->
+  it_contains it head = false -> it_contains it head' = false.
+Proof.
+  intros H Hs Hx Hh Hc.
+  destruct (it_contains it head') eqn:E; [|reflexivity]. exfalso.
+  apply (it_contains_spec it head' H) in E.
+  assert (N : ~ (lo it <= head /\ head <= hi it)).
+  { intros C. apply (it_contains_spec it head H) in C. congruence. }
+  unfold inspan in Hs. unfold lo, hi, it_half in *.
+  destruct H as (h & Hf & Hh0 & _). rewrite Hf in *. replace (2 * h / 2) with h in * by lia. lia.
+Qed.
+
+(* R3, continued: in the stored-node case the count is a well-formed node count for the writer:
+   the prover's nodes_to_root (with the writer's head, the writer being at least as long as the
+   replica) succeeds and ends exactly at the index of the node the replica stores *)
+Theorem missing_nodes_request_wellformed rt rtf i k L :
+  missing_nodes rt rtf (2 * i) = Ok k ->
+  2 * i < 2 * t_length rt -> t_length rt <= L ->
+  it_contains (it_up_n (N.to_nat k) (it_new (2 * i))) (2 * t_length rt) = false ->
+  nodes_to_root (2 * i) k (2 * L) = Ok (it_index (it_up_n (N.to_nat k) (it_new (2 * i)))) /\
+  exists n, optional_node rt rtf (it_index (it_up_n (N.to_nat k) (it_new (2 * i)))) = Ok (Some n).
+Proof.
+  intros H Hlt HL Hnc.
+  destruct (missing_nodes_gives_stored_root rt rtf i k H Hlt) as (Hf & Hj & Hend). cbv zeta in Hend.
+  destruct Hend as [Hend|[_ Hend]]; [congruence|]. split; [|exact Hend].
+  assert (Eup : forall j, it_up j (it_new (2 * i)) = it_up_n j (it_new (2 * i)))
+    by (intros j; apply it_up_up_n, wf_new).
+  unfold nodes_to_root. rewrite <- Eup. apply nodes_to_root_loop_ok; [exact Hf|].
+  intros j Hjr.
+  apply (span_below _ (2 * i) (2 * t_length rt) (2 * L)).
+  - apply wf_up, wf_new.
+  - apply inspan_up; [apply wf_new | apply inspan_new].
+  - exact Hlt.
+  - lia.
+  - rewrite Eup. destruct (Nat.eq_dec j (N.to_nat k)) as [->|Hne]; [exact Hnc|].
+    apply Hj. lia.
+Qed.
+
+(* ====================================================================================== *)
+(* R4. upgrade-only proofs for an empty replica                                            *)
+(* ====================================================================================== *)
+
+(* ---------- the full-root iteration shared by prover and verifier ---------- *)
+
+(* the loop of it_full_root, started on the tree of half-width h whose leftmost leaf is x, grows it
+   while it still fits below [to]: it ends on a tree that fits and whose double does not *)
+Lemma it_full_root_loop_spec (to : N) fuel : forall it x h,
+  it_index it = x + h - 1 -> it_factor it = 2 * h -> 0 < h -> x + 2 * h <= to ->
+  to < 2 * h * 2 ^ N.of_nat fuel ->
+  exists h', h <= h' /\ it_index (it_full_root_loop fuel it to) = x + h' - 1 /\
+    it_factor (it_full_root_loop fuel it to) = 2 * h' /\ x + 2 * h' <= to /\ to < x + 4 * h'.
+Proof.
+  induction fuel as [|f IH]; intros it x h Hi Hf Hh Hfit Hfuel.
+  { cbn [N.of_nat] in Hfuel. rewrite N.pow_0_r in Hfuel. lia. }
+  cbn [it_full_root_loop]. rewrite Hi, Hf. replace (2 * h / 2) with h by lia.
+  destruct (x + h - 1 + 2 * h + h <? to) eqn:E.
+  - destruct (IH (mkIter (x + h - 1 + h) (it_offset it / 2) (2 * h * 2)) x (2 * h)) as (h' & H1 & H2 & H3 & H4 & H5);
+      cbn [it_index it_factor]; try lia.
+    { rewrite Nat2N.inj_succ, N.pow_succ_r' in Hfuel. lia. }
+    exists h'. repeat split; try assumption. lia.
+  - exists h. repeat split; try lia; try assumption.
+Qed.
+
+Lemma it_full_root_tree (x to : N) found it' :
+  x mod 2 = 0 -> to mod 2 = 0 ->
+  it_full_root (mkIter x (x / 2) 2) to = (found, it') ->
+  (found = false /\ to <= x) \/
+  (found = true /\ x < to /\ exists h, 0 < h /\ it_index it' = x + h - 1 /\ it_factor it' = 2 * h /\
+                                      x + 2 * h <= to /\ to < x + 4 * h).
+Proof.
+  intros Hx Ht. unfold it_full_root. cbn [it_index].
+  replace (N.odd x) with false by (rewrite FlatTreeFacts.odd_mod; lia). rewrite orb_false_r.
+  destruct (to <=? x) eqn:E.
+  - intros [= <- <-]. left. split; [reflexivity | lia].
+  - intros [= <- <-]. right. split; [reflexivity|]. split; [lia|].
+    destruct (it_full_root_loop_spec to (N.size_nat to) (mkIter x (x / 2) 2) x 1) as (h' & H1 & H2 & H3 & H4 & H5);
+      cbn [it_index it_factor]; try lia.
+    { pose proof (size_nat_spec to). lia. }
+    exists h'. repeat split; try assumption. lia.
+Qed.
+
+Section UpgradeOnly.
+  Variable cr : crypto.
+
+  (* append_root when the new root is not the sibling of the last one: no merge *)
+  Lemma append_root_no_merge c n it :
+    cs_byte_length c + n_length n <= u64_max ->
+    match rev (cs_roots c) with b :: _ => it_index (it_sibling it) <> n_index b | [] => True end ->
+    append_root cr c n it =
+    Ok (mkCs (cs_length c + it_factor it / 2) (cs_ancestors c) (cs_byte_length c + n_length n)
+             (cs_batch_length c) (cs_fork c) (cs_roots c ++ [n]) (n :: cs_rnodes c) (cs_hash c)
+             (cs_signature c) true (cs_orig_length c) (cs_orig_fork c), it).
+  Proof.
+    intros Hb Hs. unfold append_root. rewrite NoPanic.add64_ok by exact Hb. cbn [bind].
+    rewrite merge_stop by exact Hs. cbn [bind rev]. rewrite rev_involutive. reflexivity.
+  Qed.
+
+  (* state of the verifier's changeset when the iteration stands at leaf x: x/2 blocks are covered,
+     all roots lie left of x, and the last root is a tree ending at x whose double did not fit *)
+  Definition uinv (x to : N) (c : changeset) : Prop :=
+    2 * cs_length c = x /\
+    Forall (fun r => n_index r < x) (cs_roots c) /\
+    match rev (cs_roots c) with
+    | [] => True
+    | b :: _ => exists hp, n_index b + hp + 1 = x /\ 2 * hp <= x /\ to < x + 2 * hp
+    end.
+
+  (* prover and verifier in lockstep over the full roots of [to] *)
+  Lemma upgrade_lockstep (t : mtree) (tf : file) (to : N) :
+    unflushed_indexed t -> to mod 2 = 0 ->
+    forall fuel x acc p' acc' has',
+    x mod 2 = 0 -> x <= to ->
+    upgrade_loop fuel t tf (mkIter x (x / 2) 2) 0 to None false to true true lp_empty acc
+      = Ok (p', acc', has') ->
+    exists sent, acc' = acc ++ sent /\ p' = lp_empty /\ has' = true /\ (x < to -> sent <> []) /\
+      forall c, uinv x to c -> cs_byte_length c + lens sent <= u64_max ->
+        exists c' it',
+          upgrade_roots_loop cr fuel c (mkQ sent None) (mkIter x (x / 2) 2) to 0 false
+            = Ok (c', mkQ [] None, it') /\
+          2 * cs_length c' = to /\ cs_roots c' = cs_roots c ++ sent /\
+          cs_byte_length c' = cs_byte_length c + lens sent /\
+          cs_rnodes c' = rev sent ++ cs_rnodes c /\
+          cs_ancestors c' = cs_ancestors c /\ cs_batch_length c' = cs_batch_length c /\
+          cs_fork c' = cs_fork c /\ cs_hash c' = cs_hash c /\ cs_signature c' = cs_signature c /\
+          cs_upgraded c' = (match sent with [] => cs_upgraded c | _ => true end) /\
+          cs_orig_length c' = cs_orig_length c /\ cs_orig_fork c' = cs_orig_fork c.
+  Proof.
+    intros U Hto. induction fuel as [|f IH]; intros x acc p' acc' has' Hx Hle H; [discriminate H|].
+    cbn [upgrade_loop] in H.
+    destruct (it_full_root (mkIter x (x / 2) 2) to) as [found it1] eqn:Efr.
+    destruct (it_full_root_tree x to found it1 Hx Hto Efr) as [(-> & Hge)|(-> & Hlt & h & Hh & Hi & Hf & Hfit & Hstop)].
+    - (* no further root *)
+      cbn [negb] in H. injection H as <- <- <-.
+      exists []. rewrite app_nil_r. split; [reflexivity|]. split; [reflexivity|]. split; [reflexivity|].
+      split; [lia|]. intros c (I1 & I2 & I3) _.
+      exists c, it1. cbn [upgrade_roots_loop]. rewrite Efr. cbn [negb].
+      split; [reflexivity|]. unfold lens. cbn [map sumN rev app]. rewrite app_nil_r.
+      repeat split; lia.
+    - (* a root of half-width h starting at x *)
+      cbn [negb] in H.
+      destruct (it_index it1 + it_factor it1 / 2 <? 0) eqn:E0; [lia|].
+      cbn [negb andb lp_nodes lp_seek lp_empty] in H.
+      assert (Ec : it_contains it1 to = false).
+      { unfold it_contains. rewrite Hi, Hf. replace (2 * h / 2) with h by lia.
+        destruct (x + h - 1 <? to) eqn:E1; lia. }
+      rewrite Ec in H. apply bind_ok in H. destruct H as (n & Hn & H).
+      assert (Ent : it_next_tree it1 = mkIter (x + 2 * h) ((x + 2 * h) / 2) 2).
+      { unfold it_next_tree. rewrite Hi, Hf. replace (2 * h / 2) with h by lia.
+        replace (x + h - 1 + h + 1) with (x + 2 * h) by lia. reflexivity. }
+      rewrite Ent in H. apply IH in H; [|lia|lia].
+      destruct H as (sent & -> & -> & -> & _ & Hver).
+      exists (n :: sent). rewrite <- app_assoc. split; [reflexivity|]. split; [reflexivity|].
+      split; [reflexivity|]. split; [discriminate|].
+      intros c (I1 & I2 & I3) Hbl. rewrite lens_cons in Hbl.
+      pose proof (required_node_index _ _ _ _ U Hn) as Hni.
+      (* the verifier's step *)
+      assert (Hstep : ('(n0, q') <- q_shift (mkQ (n :: sent) None) (it_index it1) ;;
+                       '(c', it') <- append_root cr c n0 it1 ;;
+                       upgrade_roots_loop cr f c' q' (it_next_tree it') to 0 false) =
+                      upgrade_roots_loop cr f
+                        (mkCs (cs_length c + h) (cs_ancestors c) (cs_byte_length c + n_length n)
+                              (cs_batch_length c) (cs_fork c) (cs_roots c ++ [n]) (n :: cs_rnodes c)
+                              (cs_hash c) (cs_signature c) true (cs_orig_length c) (cs_orig_fork c))
+                        (mkQ sent None) (mkIter (x + 2 * h) ((x + 2 * h) / 2) 2) to 0 false).
+      { unfold q_shift. cbn [q_extra q_nodes]. rewrite Hni, N.eqb_refl. cbn [bind].
+        rewrite append_root_no_merge.
+        - cbn [bind]. rewrite Ent, Hf. replace (2 * h / 2) with h by lia. reflexivity.
+        - lia.
+        - destruct (rev (cs_roots c)) as [|b rest]; [exact I|].
+          destruct I3 as (hp & P1 & P2 & P3).
+          unfold it_sibling, it_next, it_prev. destruct (N.even (it_offset it1)); cbn [it_index].
+          + lia.
+          + destruct (it_offset it1 =? 0); cbn [it_index]; lia. }
+      set (c1 := mkCs (cs_length c + h) (cs_ancestors c) (cs_byte_length c + n_length n)
+                      (cs_batch_length c) (cs_fork c) (cs_roots c ++ [n]) (n :: cs_rnodes c)
+                      (cs_hash c) (cs_signature c) true (cs_orig_length c) (cs_orig_fork c)) in *.
+      destruct (Hver c1) as (c' & it' & Hrun & F1 & F2 & F3 & F4 & F5 & F6 & F7 & F8 & F9 & F10 & F11 & F12).
+      { unfold uinv, c1. cbn [cs_length cs_roots]. split; [lia|]. split.
+        - apply Forall_app. split.
+          + eapply Forall_impl; [|exact I2]. cbn beta. intros r Hr. lia.
+          + constructor; [lia | constructor].
+        - rewrite rev_app_distr. cbn [rev app]. exists h. lia. }
+      { unfold c1. cbn [cs_byte_length]. lia. }
+      exists c', it'. split.
+      { cbn [upgrade_roots_loop]. rewrite Efr. cbn [negb].
+        destruct (cs_roots c) as [|r0 rs] eqn:Er; cbn [nth_error].
+        - exact (eq_trans Hstep Hrun).
+        - inversion I2 as [|? ? Hr0 _]; subst.
+          destruct (n_index r0 =? it_index it1) eqn:E1; [lia|].
+          exact (eq_trans Hstep Hrun). }
+      unfold c1 in F2, F3, F4, F5, F6, F7, F8, F9, F10, F11, F12.
+      cbn [cs_length cs_ancestors cs_byte_length cs_batch_length cs_fork cs_roots cs_rnodes cs_hash
+           cs_signature cs_upgraded cs_orig_length cs_orig_fork] in *.
+      split; [exact F1|]. split; [rewrite F2, <- app_assoc; reflexivity|].
+      split; [rewrite F3, lens_cons; lia|].
+      split; [rewrite F4; cbn [rev]; rewrite <- app_assoc; reflexivity|].
+      repeat split; try assumption.
+      rewrite F10. destruct sent; reflexivity.
+  Qed.
+
+  (* goal-side unfoldings (see the remark on CLIMB above) *)
+  Lemma upgrade_proof_inv t tf ix is_seek from to sub_tree p p1 :
+    upgrade_proof t tf ix is_seek from to sub_tree p = Ok p1 ->
+    exists p' acc has,
+      upgrade_loop CLIMB t tf (it_new 0) from to ix is_seek sub_tree true (from =? 0) p [] = Ok (p', acc, has) /\
+      p1 = if has then mkLp (lp_seek p') (lp_nodes p') (Some acc) (lp_additional p') else p'.
+  Proof.
+    unfold upgrade_proof. intros H. apply bind_ok in H. destruct H as ([[p' acc] has] & H1 & H).
+    injection H as <-. eauto.
+  Qed.
+
+  (* shape of the writer's upgrade-only proof for the whole log *)
+  Theorem upgrade_only_proof_shape t tf vp :
+    unflushed_indexed t ->
+    create_valueless_proof t tf None None None (Some (mkReqUpgrade 0 (t_length t))) = Ok vp ->
+    exists roots sg p' has,
+      vp = mkVproof (t_fork t) None None None (Some (mkDataUpgrade 0 (t_length t) roots [] sg)) /\
+      t_signature t = Some sg /\ 0 < t_length t /\ t_length t * 2 <= u64_max /\
+      upgrade_loop CLIMB t tf (mkIter 0 (0 / 2) 2) 0 (2 * t_length t) None false (2 * t_length t)
+                   true true lp_empty [] = Ok (p', roots, has).
+  Proof.
+    intros U. unfold create_valueless_proof, normalize_indexed, mul64, add64. cbn [bind ru_start ru_length].
+    change (fits_u64 (0 * 2)) with true. cbn [bind].
+    destruct (fits_u64 (t_length t * 2)) eqn:F1; [|discriminate]. cbn [bind].
+    destruct (fits_u64 (0 * 2 + t_length t * 2)) eqn:F2; [|discriminate]. cbn [bind].
+    replace (0 * 2 + t_length t * 2) with (2 * t_length t) by lia.
+    change (0 * 2) with 0.
+    destruct ((2 * t_length t <=? 0) || (2 * t_length t <? 2 * t_length t)) eqn:E0; [discriminate|].
+    cbn [negb bind].
+    destruct (2 * t_length t <? 2 * t_length t) eqn:E1; [lia|].
+    intros H. apply bind_ok in H. destruct H as (p & Hp & H).
+    apply bind_ok in Hp. destruct Hp as (p1 & H1 & Hp). injection Hp as <-.
+    apply upgrade_proof_inv in H1. destruct H1 as (p' & acc & has & Hloop & ->).
+    change (0 =? 0) with true in Hloop. change (it_new 0) with (mkIter 0 (0 / 2) 2) in Hloop.
+    pose proof Hloop as Hloop0.
+    apply (upgrade_lockstep t tf (2 * t_length t) U) in Hloop; [|lia|reflexivity|lia].
+    destruct Hloop as (sent & Eacc & -> & -> & _). cbn [app] in Eacc. subst acc.
+    cbn [bind lp_nodes lp_seek lp_upgrade lp_additional lp_empty] in H.
+    destruct (t_signature t) as [sg|] eqn:Es; [|discriminate H]. cbn [bind] in H. injection H as <-.
+    exists sent, sg, lp_empty, true. split; [reflexivity|]. split; [reflexivity|].
+    apply orb_false_iff in E0. unfold fits_u64 in F1. repeat split; try lia. exact Hloop0.
+  Qed.
+
+  (* the verifier accepts it on an empty replica, with exactly the roots sent *)
+  Theorem upgrade_only_accepted t tf rt rtf pk vp :
+    unflushed_indexed t ->
+    create_valueless_proof t tf None None None (Some (mkReqUpgrade 0 (t_length t))) = Ok vp ->
+    t_roots rt = [] -> t_length rt = 0 ->
+    exists roots sg,
+      vp = mkVproof (t_fork t) None None None (Some (mkDataUpgrade 0 (t_length t) roots [] sg)) /\
+      t_signature t = Some sg /\ roots <> [] /\
+      Forall (from_writer t tf) roots /\
+      (t_byte_length rt + lens roots <= u64_max ->
+       length sg = 64%nat ->
+       cr_verify cr pk (signable (tree_hash cr roots) (t_length t) (t_fork t)) sg = true ->
+       exists cs,
+         verify_proof cr rt rtf
+           (mkProof (t_fork t) None None None (Some (mkDataUpgrade 0 (t_length t) roots [] sg))) pk = Ok cs /\
+         cs_roots cs = roots /\ cs_length cs = t_length t /\ cs_fork cs = t_fork t /\
+         cs_byte_length cs = t_byte_length rt + lens roots /\
+         cs_upgraded cs = true /\ cs_signature cs = Some sg /\
+         cs_hash cs = Some (tree_hash cr roots) /\ cs_nodes cs = roots /\
+         cs_ancestors cs = 0 /\ commitable rt cs = true).
+  Proof.
+    intros U Hc Hr Hl.
+    pose proof (create_proof_no_fabrication _ _ _ _ _ _ _ Hc) as ((_ & _ & _ & NF) & _).
+    destruct (upgrade_only_proof_shape t tf vp U Hc) as (roots & sg & p' & has & -> & Hsg & HL & HL64 & Hloop).
+    cbn [vp_upgrade] in NF. destruct (NF _ eq_refl) as [NF1 _]. cbn [du_nodes] in NF1.
+    apply (upgrade_lockstep t tf (2 * t_length t) U) in Hloop; [|lia|reflexivity|lia].
+    destruct Hloop as (sent & Eacc & _ & _ & Hne & Hver). cbn [app] in Eacc. subst sent.
+    exists roots, sg. split; [reflexivity|]. split; [exact Hsg|]. split; [apply Hne; lia|].
+    split; [exact NF1|]. intros Hbl Hs64 Hsig.
+    destruct (Hver (tree_changeset rt)) as (c' & it' & Hrun & F1 & F2 & F3 & F4 & F5 & F6 & F7 & F8 & F9 & F10 & F11 & F12).
+    { unfold uinv, tree_changeset. cbn [cs_length cs_roots]. rewrite Hl, Hr. cbn [rev].
+      split; [reflexivity|]. split; [constructor | exact I]. }
+    { exact Hbl. }
+    cbn [tree_changeset cs_length cs_ancestors cs_byte_length cs_batch_length cs_fork cs_roots cs_rnodes
+         cs_hash cs_signature cs_upgraded cs_orig_length cs_orig_fork] in F2, F3, F4, F5, F6, F7, F8, F9, F10, F11, F12.
+    rewrite Hr in F2. cbn [app] in F2. rewrite app_nil_r in F4.
+    destruct roots as [|r0 rs] eqn:Eroots; [exfalso; apply Hne; [lia | reflexivity]|].
+    rewrite <- Eroots in *.
+    assert (Hlast : exists b rest, rev (cs_roots c') = b :: rest).
+    { rewrite F2, Eroots. cbn [rev]. destruct (rev rs) as [|b rest]; cbn [app]; eauto. }
+    destruct Hlast as (b & rest & Hlast).
+    set (c4 := cs_set_hash_sig (cs_set_fork c' (t_fork t)) (tree_hash cr roots) sg).
+    assert (Hvu : verify_upgrade cr (t_fork t) (mkDataUpgrade 0 (t_length t) roots [] sg) None pk
+                    (tree_changeset rt) = Ok (true, c4)).
+    { unfold verify_upgrade. cbn [du_nodes du_start du_length du_additional du_signature tree_changeset cs_roots].
+      rewrite Hr. rewrite NoPanic.add64_ok by lia. cbn [bind].
+      rewrite NoPanic.mul64_ok by lia. cbn [bind].
+      replace (2 * (0 + t_length t)) with (2 * t_length t) by lia.
+      change (it_new 0) with (mkIter 0 (0 / 2) 2).
+      rewrite Hrun. cbn [bind].
+      unfold last_root_index. rewrite Hlast. cbn [bind extra_siblings extra_rest q_extra].
+      unfold cs_verify_and_set_signature, parse_signature. rewrite Hs64. cbn [Nat.eqb bind].
+      change (Nat.eqb 64 64) with true. cbn [bind].
+      unfold cs_signable, cs_tree_hash. cbn [cs_set_fork cs_length cs_fork cs_roots].
+      rewrite F2. replace (cs_length c') with (t_length t) by lia.
+      rewrite Hsig. reflexivity. }
+    exists c4. split.
+    { unfold verify_proof. cbn [p_block p_hash p_seek p_upgrade p_fork verify_tree bind].
+      rewrite Hvu. cbn [bind]. reflexivity. }
+    unfold c4. cbn [cs_set_hash_sig cs_set_fork cs_roots cs_length cs_fork cs_byte_length cs_upgraded
+                    cs_signature cs_hash cs_ancestors].
+    split; [exact F2|]. split; [lia|]. split; [reflexivity|]. split; [exact F3|].
+    split; [exact F10|]. split; [reflexivity|]. split; [reflexivity|].
+    split.
+    { unfold cs_nodes. cbn [cs_set_hash_sig cs_set_fork cs_rnodes]. rewrite F4, rev_append_rev, app_nil_r. apply rev_involutive. }
+    split; [rewrite F5; exact Hl|].
+    unfold commitable. cbn [cs_set_hash_sig cs_set_fork cs_orig_fork cs_orig_length cs_upgraded].
+    rewrite F12, F11, F10, !N.eqb_refl. reflexivity.
+  Qed.
+End UpgradeOnly.
+
+(* ---------- R4, continued: the roots sent are the writer's nodes at ft_full_roots ---------- *)
+
+Lemma it_full_root_loop_pow2 (to : N) fuel : forall it k,
+  it_factor it = 2 * 2 ^ k -> exists k', it_factor (it_full_root_loop fuel it to) = 2 * 2 ^ k'.
+Proof.
+  induction fuel as [|f IH]; intros it k Hf; cbn [it_full_root_loop]; [eauto|].
+  destruct (it_index it + it_factor it + it_factor it / 2 <? to); [|eauto].
+  apply (IH _ (k + 1)). cbn [it_factor]. rewrite Hf, FlatTreeFacts.pow2_succ. lia.
+Qed.
+
+Lemma it_full_root_pow2 (x to : N) it' :
+  it_full_root (mkIter x (x / 2) 2) to = (true, it') -> exists k, it_factor it' = 2 * 2 ^ k.
+Proof.
+  unfold it_full_root. destruct ((to <=? it_index (mkIter x (x / 2) 2)) || N.odd (it_index (mkIter x (x / 2) 2)));
+    [discriminate|].
+  intros [= <-]. apply (it_full_root_loop_pow2 to _ _ 0). cbn [it_factor]. rewrite N.pow_0_r. lia.
+Qed.
+
+(* the upgrade loop of an upgrade-only request emits the writer's nodes at the indices computed by
+   flat-tree's full_roots (any sufficient fuel g) *)
+Lemma upgrade_loop_full_roots (t : mtree) (tf : file) (to : N) :
+  to mod 2 = 0 ->
+  forall fuel x acc p' acc' has',
+  x mod 2 = 0 -> x <= to ->
+  upgrade_loop fuel t tf (mkIter x (x / 2) 2) 0 to None false to true true lp_empty acc
+    = Ok (p', acc', has') ->
+  exists sent, acc' = acc ++ sent /\ p' = lp_empty /\ has' = true /\
+    forall g, (to - x) / 2 < 2 ^ N.of_nat g ->
+      Forall2 (fun idx n => required_node t tf idx = Ok n) (full_roots_aux g ((to - x) / 2) x) sent.
+Proof.
+  intros Hto. induction fuel as [|f IH]; intros x acc p' acc' has' Hx Hle H; [discriminate H|].
+  cbn [upgrade_loop] in H.
+  destruct (it_full_root (mkIter x (x / 2) 2) to) as [found it1] eqn:Efr.
+  destruct (it_full_root_tree x to found it1 Hx Hto Efr) as [(-> & Hge)|(-> & Hlt & h & Hh & Hi & Hf & Hfit & Hstop)].
+  - cbn [negb] in H. injection H as <- <- <-. exists []. rewrite app_nil_r. split; [reflexivity|].
+    split; [reflexivity|]. split; [reflexivity|].
+    intros g _. replace ((to - x) / 2) with 0 by lia. rewrite fra_zero. constructor.
+  - cbn [negb] in H.
+    destruct (it_index it1 + it_factor it1 / 2 <? 0) eqn:E0; [lia|].
+    cbn [negb andb lp_nodes lp_seek lp_empty] in H.
+    assert (Ec : it_contains it1 to = false).
+    { unfold it_contains. rewrite Hi, Hf. replace (2 * h / 2) with h by lia.
+      destruct (x + h - 1 <? to) eqn:E1; lia. }
+    rewrite Ec in H. apply bind_ok in H. destruct H as (n & Hn & H).
+    assert (Ent : it_next_tree it1 = mkIter (x + 2 * h) ((x + 2 * h) / 2) 2).
+    { unfold it_next_tree. rewrite Hi, Hf. replace (2 * h / 2) with h by lia.
+      replace (x + h - 1 + h + 1) with (x + 2 * h) by lia. reflexivity. }
+    rewrite Ent in H. apply IH in H; [|lia|lia].
+    destruct H as (sent & -> & -> & -> & Hall).
+    exists (n :: sent). rewrite <- app_assoc. split; [reflexivity|].
+    split; [reflexivity|]. split; [reflexivity|].
+    intros g Hg.
+    destruct (it_full_root_pow2 x to it1 Efr) as (k & Hk).
+    assert (Ehk : h = 2 ^ k) by lia.
+    assert (Htmp : h <= (to - x) / 2 /\ (to - x) / 2 < 2 * h) by lia.
+    set (tmp := (to - x) / 2) in *.
+    assert (Elog : N.log2 tmp = k).
+    { apply (N.log2_unique' tmp k (tmp - 2 ^ k)); lia. }
+    destruct g as [|g'].
+    { cbn [N.of_nat] in Hg. rewrite N.pow_0_r in Hg. lia. }
+    rewrite fra_step by lia. rewrite Elog, <- Ehk.
+    replace (x + h - 1) with (it_index it1) by lia.
+    constructor; [exact Hn|].
+    replace (tmp - h) with ((to - (x + 2 * h)) / 2) by (unfold tmp; lia).
+    apply Hall.
+    (* fuel: h = 2^k <= tmp < 2^(S g') gives k <= g', hence tmp - h < h <= 2^g' *)
+    assert (Hkg : k < N.of_nat (S g')).
+    { apply (N.pow_lt_mono_r_iff 2); [lia|]. lia. }
+    assert (Hkg' : 2 ^ k <= 2 ^ N.of_nat g') by (apply N.pow_le_mono_r; lia).
+    lia.
+Qed.
+
+(* for the whole log: the upgrade nodes are the writer's nodes at ft_full_roots (2 * length) *)
+Theorem upgrade_only_roots_are_full_roots t tf vp :
+  create_valueless_proof t tf None None None (Some (mkReqUpgrade 0 (t_length t))) = Ok vp ->
+  exists u, vp_upgrade vp = Some u /\
+    Forall2 (fun idx n => required_node t tf idx = Ok n) (ft_full_roots (2 * t_length t)) (du_nodes u) /\
+    (unflushed_indexed t -> map n_index (du_nodes u) = ft_full_roots (2 * t_length t)).
+Proof.
+  unfold create_valueless_proof, normalize_indexed, mul64, add64. cbn [bind ru_start ru_length].
+  change (fits_u64 (0 * 2)) with true. cbn [bind].
+  destruct (fits_u64 (t_length t * 2)) eqn:F1; [|discriminate]. cbn [bind].
+  destruct (fits_u64 (0 * 2 + t_length t * 2)) eqn:F2; [|discriminate]. cbn [bind].
+  replace (0 * 2 + t_length t * 2) with (2 * t_length t) by lia.
+  change (0 * 2) with 0.
+  destruct ((2 * t_length t <=? 0) || (2 * t_length t <? 2 * t_length t)) eqn:E0; [discriminate|].
+  cbn [negb bind].
+  destruct (2 * t_length t <? 2 * t_length t) eqn:E1; [lia|].
+  intros H. apply bind_ok in H. destruct H as (p & Hp & H).
+  apply bind_ok in Hp. destruct Hp as (p1 & H1 & Hp). injection Hp as <-.
+  apply upgrade_proof_inv in H1. destruct H1 as (p' & acc & has & Hloop & ->).
+  change (0 =? 0) with true in Hloop. change (it_new 0) with (mkIter 0 (0 / 2) 2) in Hloop.
+  pose proof Hloop as Hloop0.
+  apply (upgrade_loop_full_roots t tf (2 * t_length t)) in Hloop; [|lia|reflexivity|lia].
+  destruct Hloop as (sent & Eacc & -> & -> & Hall). cbn [app] in Eacc. subst acc.
+  cbn [bind lp_nodes lp_seek lp_upgrade lp_additional lp_empty] in H.
+  destruct (t_signature t) as [sg|] eqn:Es; [|discriminate H]. cbn [bind] in H. injection H as <-.
+  cbn [vp_upgrade]. eexists. split; [reflexivity|]. cbn [du_nodes].
+  assert (HF : Forall2 (fun idx n => required_node t tf idx = Ok n) (ft_full_roots (2 * t_length t)) sent).
+  { unfold ft_full_roots. replace (2 * t_length t / 2) with (t_length t) by lia.
+    specialize (Hall (N.size_nat (t_length t))).
+    replace ((2 * t_length t - 0) / 2) with (t_length t) in Hall by lia.
+    apply Hall, size_nat_spec. }
+  split; [exact HF|]. intros U. clear -HF U.
+  induction HF as [|idx n li ln Hr HF IH]; cbn [map]; [reflexivity|].
+  rewrite IH. f_equal. apply (required_node_index _ _ _ _ U Hr).
+Qed.
+
+(* R3, the other case: when the climb of missing_nodes stopped because the span reached the
+   replica's head, a writer of the same length refuses the request (no proof is fabricated) *)
+Lemma nodes_to_root_loop_err fuel : forall it rem head,
+  (N.to_nat rem < fuel)%nat ->
+  (exists j, (0 < j <= N.to_nat rem)%nat /\ it_contains (it_up j it) head = true) ->
+  nodes_to_root_loop fuel it rem head = Err InvalidOperation.
+Proof.
+  induction fuel as [|f IH]; intros it rem head Hf (j & Hj & Hc); [lia|].
+  cbn [nodes_to_root_loop]. destruct (rem =? 0) eqn:E; [lia|].
+  destruct (it_contains (it_parent it) head) eqn:Ec; [reflexivity|].
+  apply IH; [lia|]. destruct j as [|j]; [lia|]. cbn [it_up] in Hc.
+  destruct j as [|j]; [cbn [it_up] in Hc; congruence|].
+  exists (S j). split; [lia | exact Hc].
+Qed.
+
+Theorem missing_nodes_head_case_rejected rt rtf i k :
+  missing_nodes rt rtf (2 * i) = Ok k ->
+  2 * i < 2 * t_length rt ->
+  it_contains (it_up_n (N.to_nat k) (it_new (2 * i))) (2 * t_length rt) = true ->
+  nodes_to_root (2 * i) k (2 * t_length rt) = Err InvalidOperation.
+Proof.
+  intros H Hlt Hc.
+  destruct (missing_nodes_gives_stored_root rt rtf i k H Hlt) as (Hf & _ & _).
+  unfold nodes_to_root. apply nodes_to_root_loop_err; [exact Hf|].
+  exists (N.to_nat k). rewrite (it_up_up_n _ _ (wf_new _)). split; [|exact Hc].
+  destruct (N.to_nat k) as [|k'] eqn:Ek; [|lia]. exfalso. cbn [it_up_n] in Hc.
+  apply (it_contains_spec _ _ (wf_new _)) in Hc. unfold lo, hi, it_half, it_new in Hc.
+  replace (N.odd (2 * i)) with false in Hc by (rewrite FlatTreeFacts.odd_mod; lia).
+  cbn [it_index it_factor] in Hc. lia.
+Qed.
+
+(* ====================================================================================== *)
+(* R2 + R3 together: a block request built from the replica's own count is served            *)
+(* ====================================================================================== *)
+
+(* block_proof_loop succeeds when the writer can read every sibling on the way *)
+Lemma block_proof_loop_ok (t : mtree) (tf : file) : forall m fuel it sr p acc,
+  (m < fuel)%nat -> (exists d o, it = it_at d o) ->
+  (forall idx, In idx (sib_indices m it) -> exists n, required_node t tf idx = Ok n) ->
+  exists sibs, block_proof_loop fuel t tf it (it_index (it_up_n m it)) false sr p acc = Ok (p, rev acc ++ sibs).
+Proof.
+  induction m as [|m IH]; intros fuel it sr p acc Hf Hat Hall;
+    (destruct fuel as [|f]; [lia|]); cbn [block_proof_loop it_up_n andb].
+  - rewrite N.eqb_refl. exists []. now rewrite app_nil_r.
+  - destruct (it_index it =? it_index (it_up_n m (it_parent (it_sibling it)))) eqn:E.
+    { exfalso. apply N.eqb_eq in E. apply (it_up_n_index_neq (S m) it); [lia | exact Hat | exact E]. }
+    destruct (Hall (it_index (it_sibling it))) as (n & Hn); [left; reflexivity|].
+    rewrite Hn. cbn [bind].
+    destruct (IH f (it_parent (it_sibling it)) sr p (n :: acc)) as (sibs & Hs);
+      [lia | apply it_step_is_at, Hat | intros idx Hin; apply Hall; right; exact Hin|].
+    exists (n :: sibs). rewrite Hs. cbn [rev]. now rewrite <- app_assoc.
+Qed.
+
+Lemma it_new_of_at it : (exists d o, it = it_at d o) -> it_new (it_index it) = it.
+Proof. intros (d & o & ->). unfold it_at at 1. cbn [it_index]. apply FlatTreeFacts.it_new_index. Qed.
+
+Lemma it_up_n_is_at k : forall it, (exists d o, it = it_at d o) -> exists d o, it_up_n k it = it_at d o.
+Proof.
+  induction k as [|k IH]; intros it H; cbn [it_up_n]; [exact H|]. apply IH, it_step_is_at, H.
+Qed.
+
+(* the prover does create the proof: enough is that nodes_to_root accepts the count and that the
+   writer can read the siblings (its store holds the whole tree) *)
+Theorem block_only_proof_created t tf i nodes :
+  i * 2 <= u64_max -> 0 < t_length t ->
+  nodes_to_root (2 * i) nodes (2 * t_length t)
+    = Ok (it_index (it_up_n (N.to_nat nodes) (it_new (2 * i)))) ->
+  (N.to_nat nodes < CLIMB)%nat ->
+  (forall idx, In idx (sib_indices (N.to_nat nodes) (it_new (2 * i))) ->
+     exists n, required_node t tf idx = Ok n) ->
+  exists vp, create_valueless_proof t tf (Some (mkReqBlock i nodes)) None None None = Ok vp.
+Proof.
+  intros Hi HL Hroot Hfuel Hall.
+  unfold create_valueless_proof, normalize_indexed. cbn [bind rb_index rb_nodes].
+  rewrite NoPanic.mul64_ok by exact Hi. cbn [bind].
+  destruct ((2 * t_length t <=? 0) || (2 * t_length t <? 2 * t_length t)) eqn:E0.
+  { apply orb_true_iff in E0. lia. }
+  cbn [andb ix_index ix_nodes ix_value ix_last]. rewrite (N.mul_comm i 2), Hroot. cbn [bind].
+  set (root := it_index (it_up_n (N.to_nat nodes) (it_new (2 * i)))).
+  assert (Hbs : exists sibs,
+             block_and_seek_proof t tf (Some (mkIndexed true (2 * i) nodes i)) false (2 * t_length t) root lp_empty
+             = Ok (mkLp None (Some sibs) None None)).
+  { unfold block_and_seek_proof. cbn [ix_index ix_value].
+    assert (Enew : it_new root = it_up_n (N.to_nat nodes) (it_new (2 * i)))
+      by (apply it_new_of_at, it_up_n_is_at, it_new_is_at).
+    assert (Hc : it_contains (it_new root) (2 * i) = true).
+    { rewrite Enew, <- (it_up_up_n _ _ (wf_new _)).
+      apply it_contains_spec; [apply wf_up, wf_new|].
+      pose proof (inspan_up (N.to_nat nodes) (it_new (2 * i)) (2 * i) (wf_new _) (inspan_new _)) as Hs.
+      pose proof (wf_up (N.to_nat nodes) _ (wf_new (2 * i))) as (h & Hf & Hh & _).
+      unfold inspan in Hs. unfold lo, hi, it_half. rewrite Hf in *.
+      replace (2 * h / 2) with h in * by lia. lia. }
+    rewrite Hc. cbn [negb bind].
+    destruct (block_proof_loop_ok t tf (N.to_nat nodes) CLIMB (it_new (2 * i)) (2 * t_length t) lp_empty [])
+      as (sibs & Hs); [exact Hfuel | apply it_new_is_at | exact Hall|].
+    fold root in Hs. rewrite Hs. cbn [bind rev app lp_seek lp_upgrade lp_additional lp_empty].
+    exists sibs. reflexivity. }
+  destruct Hbs as (sibs & ->). cbn [bind negb lp_nodes lp_seek]. eexists. reflexivity.
+Qed.
+
+Lemma optional_required t tf i n : optional_node t tf i = Ok (Some n) -> required_node t tf i = Ok n.
+Proof.
+  unfold optional_node, required_node, node_get.
+  destruct (nm_get i (t_unflushed t)) as [m|].
+  - destruct (node_blank m); [discriminate|]. intros [= <-]. reflexivity.
+  - destruct (mul64 "40 * index" NODE_SIZE i) as [off| | |]; cbn [bind]; try discriminate.
+    destruct (f_read tf off NODE_SIZE) as [data|]; [|discriminate].
+    destruct (node_blank (node_from_bytes i data)); [discriminate|]. intros [= <-]. reflexivity.
+Qed.
+
+(* Capstone for block requests.  Writer t (store = the tree function T on the indices needed),
+   replica rt no longer than the writer, whose stored nodes carry T's hashes; the replica asks for a
+   block below its length with its own missing-node count, and that count ended on a stored node.
+   Then the writer creates the proof and the replica's verifier accepts it with a commitable
+   changeset that contains the block's leaf and every sibling sent. *)
+Theorem block_request_served cr T t tf rt rtf i k v pk :
+  unflushed_indexed t ->
+  (forall j n, required_node t tf j = Ok n -> n = T j) ->
+  (forall idx, In idx (sib_indices (N.to_nat k) (it_new (2 * i))) ->
+     exists n, required_node t tf idx = Ok n) ->
+  (forall j n, optional_node rt rtf j = Ok (Some n) -> n_hash n = n_hash (T j)) ->
+  missing_nodes rt rtf (2 * i) = Ok k ->
+  2 * i < 2 * t_length rt -> t_length rt <= t_length t -> i * 2 <= u64_max ->
+  it_contains (it_up_n (N.to_nat k) (it_new (2 * i))) (2 * t_length rt) = false ->
+  consistent_path cr T (N.to_nat k) (it_new (2 * i)) ->
+  T (2 * i) = block_node cr (2 * i) v ->
+  len v + sumN (map (fun idx => n_length (T idx)) (sib_indices (N.to_nat k) (it_new (2 * i)))) <= u64_max ->
+  exists ns cs,
+    create_valueless_proof t tf (Some (mkReqBlock i k)) None None None
+      = Ok (mkVproof (t_fork t) (Some (mkDataHash i ns)) None None None) /\
+    length ns = N.to_nat k /\
+    verify_proof cr rt rtf (mkProof (t_fork t) (Some (mkDataBlock i v ns)) None None None) pk = Ok cs /\
+    cs_upgraded cs = false /\ commitable rt cs = true /\
+    (forall n, In n ns -> In n (cs_nodes cs)) /\ In (block_node cr (2 * i) v) (cs_nodes cs).
+Proof.
+  intros U HT Hall Hrep Hm Hlt HL Hi Hnc Hp HT0 Hsz.
+  destruct (missing_nodes_request_wellformed rt rtf i k (t_length t) Hm Hlt HL Hnc) as (Hroot & n0 & Hn0).
+  destruct (missing_nodes_gives_stored_root rt rtf i k Hm Hlt) as (Hfuel & _ & _).
+  destruct (block_only_proof_created t tf i k Hi) as (vp & Hc); [lia | exact Hroot | exact Hfuel | exact Hall|].
+  pose proof (block_only_proof_shape _ _ _ _ _ Hc) as (ns0 & Evp & HL0 & HF0 & _).
+  destruct (block_only_end_to_end cr T t tf rt rtf i k v pk vp U HT Hc Hp HT0)
+    as (ns & cs & -> & HLn & Hv & Hu & Hcm & Hin & Hleaf & Hns).
+  - intros ns Hb. rewrite Evp in Hb. cbn [vp_block] in Hb. injection Hb as <-.
+    assert (E : lens ns0 = sumN (map (fun idx => n_length (T idx)) (sib_indices (N.to_nat k) (it_new (2 * i))))).
+    { clear -HF0 HT. induction HF0 as [|idx n li ln Hr HF IH]; [reflexivity|].
+      rewrite lens_cons. cbn [map sumN]. rewrite IH, (HT _ _ Hr). reflexivity. }
+    rewrite E. exact Hsz.
+  - exists n0. split; [apply optional_required, Hn0 | apply (Hrep _ _ Hn0)].
+  - exists ns, cs. cbn [vp_fork] in Hv. repeat split; assumption.
+Qed.
+
+(* ====================================================================================== *)
+(* Non-vacuity: a toy crypto, a 5-block writer, a replica synced by an upgrade-only proof,  *)
+(* a block-only proof created from the replica's own missing-node count and verified         *)
+(* ====================================================================================== *)
+
+Definition ex_hash (x : bytes) : bytes :=
+  map (fun j => (fold_left (fun a b => (a * 31 + b + j) mod 65521) x 7) mod 256) (nrange 0 32).
+Definition ex_sign (k m : bytes) : bytes := ex_hash (k ++ m) ++ ex_hash (m ++ k).
+Definition ex_cr : crypto :=
+  mkCrypto ex_hash (fun _ => 0) ex_sign (fun pk m s => bytes_eqb s (ex_sign pk m)).
+Definition ex_key : bytes := repeat 5 32.
+Definition ex_blocks : list bytes := [[1; 2; 3]; []; [4]; [5; 6; 7; 8]; [9; 10]].
+
+(* the writer: five appends and one commit on the empty tree; nothing flushed (empty tree file) *)
+Definition ex_writer : res mtree :=
+  cs <- cs_append_all ex_cr (tree_changeset empty_tree) ex_blocks ;;
+  tree_commit empty_tree (cs_hash_and_sign ex_cr cs ex_key).
+Definition ex_wt : mtree := match ex_writer with Ok t => t | _ => empty_tree end.
+
+Definition vp_to_proof (vp : vproof) (v : option bytes) : proof :=
+  mkProof (vp_fork vp)
+          (match vp_block vp, v with
+           | Some b, Some v => Some (mkDataBlock (dh_index b) v (dh_nodes b))
+           | _, _ => None
+           end) (vp_hash vp) (vp_seek vp) (vp_upgrade vp).
+
+(* the replica: empty, then synced to length 5 by the writer's upgrade-only proof *)
+Definition ex_up_proof : res vproof :=
+  create_valueless_proof ex_wt file_empty None None None (Some (mkReqUpgrade 0 5)).
+Definition ex_replica : res mtree :=
+  vp <- ex_up_proof ;;
+  cs <- verify_proof ex_cr empty_tree file_empty (vp_to_proof vp None) ex_key ;;
+  tree_commit empty_tree cs.
+Definition ex_rt : mtree := match ex_replica with Ok t => t | _ => empty_tree end.
+
+Example ex_writer_ok :
+  is_ok ex_writer = true /\ t_length ex_wt = 5 /\ t_byte_length ex_wt = 10 /\
+  map n_index (t_roots ex_wt) = [3; 8] /\
+  map fst (nm_elements (t_unflushed ex_wt)) = [3; 1; 5; 0; 8; 4; 2; 6].
+Proof. vm_compute. repeat split. Qed.
+
+Lemma nm_get_elements {A} (m : nmap A) k v : nm_get k m = Some v -> In (k, v) (nm_elements m).
+Proof.
+  unfold nm_get. intros Hg. apply PositiveMap.elements_correct in Hg.
+  unfold nm_elements. apply in_map_iff. exists (N.succ_pos k, v). split; [|exact Hg].
+  cbn [fst snd]. now rewrite N.pos_pred_succ.
+Qed.
+
+(* a decidable check for unflushed_indexed (closed trees are then handled by vm_compute) *)
+Lemma unflushed_indexed_check t :
+  forallb (fun kv => fst kv =? n_index (snd kv)) (nm_elements (t_unflushed t)) = true ->
+  unflushed_indexed t.
+Proof.
+  intros H k n Hg. rewrite forallb_forall in H.
+  assert (Hin : In (k, n) (nm_elements (t_unflushed t))).
+  { apply nm_get_elements, Hg. }
+  apply H in Hin. cbn [fst snd] in Hin. apply N.eqb_eq in Hin. now symmetry.
+Qed.
+
+Example ex_writer_indexed : unflushed_indexed ex_wt.
+Proof. apply unflushed_indexed_check. vm_compute. reflexivity. Qed.
+
+Example ex_replica_synced :
+  is_ok ex_replica = true /\ t_length ex_rt = 5 /\ map n_index (t_roots ex_rt) = [3; 8] /\
+  t_roots ex_rt = t_roots ex_wt /\ t_signature ex_rt = t_signature ex_wt /\
+  map fst (nm_elements (t_unflushed ex_rt)) = [3; 8].
+Proof. vm_compute. repeat split. Qed.
+
+(* the replica asks for block 2 with its own missing-node count: 2 nodes (flat 6 and 1) *)
+Example ex_missing : missing_nodes ex_rt file_empty (2 * 2) = Ok 2.
+Proof. vm_compute. reflexivity. Qed.
+
+Definition ex_block_proof : res vproof :=
+  create_valueless_proof ex_wt file_empty (Some (mkReqBlock 2 2)) None None None.
+
+Example ex_block_proof_shape :
+  match ex_block_proof with
+  | Ok vp => vp_hash vp = None /\ vp_seek vp = None /\ vp_upgrade vp = None /\
+             option_map (fun b => (dh_index b, map n_index (dh_nodes b))) (vp_block vp) = Some (2, [6; 1])
+  | _ => False
+  end.
+Proof. vm_compute. repeat split. Qed.
+
+(* accepted, commitable; the committed replica holds the path 4, 6, 5, 1 (and re-stores root 3) *)
+Example ex_block_proof_accepted :
+  match (vp <- ex_block_proof ;;
+         cs <- verify_proof ex_cr ex_rt file_empty (vp_to_proof vp (Some [4])) ex_key ;;
+         t <- tree_commit ex_rt cs ;; Ok (cs, t)) with
+  | Ok (cs, t) =>
+      map n_index (cs_nodes cs) = [4; 6; 5; 1; 3] /\ commitable ex_rt cs = true /\
+      cs_upgraded cs = false /\
+      map fst (nm_elements (t_unflushed t)) = [3; 1; 5; 8; 4; 6] /\
+      required_node t file_empty 4 = required_node ex_wt file_empty 4
+  | _ => False
+  end.
+Proof. vm_compute. repeat split. Qed.
+
+(* the same proof with another block value is refused *)
+Example ex_block_proof_tampered :
+  (vp <- ex_block_proof ;;
+   verify_proof ex_cr ex_rt file_empty (vp_to_proof vp (Some [5])) ex_key) = Err InvalidChecksum.
+Proof. vm_compute. reflexivity. Qed.
+
+(* the premises of block_only_end_to_end hold together on this instance *)
+Definition ex_T (i : N) : node :=
+  match required_node ex_wt file_empty i with Ok n => n | _ => mkNode i 0 [] end.
+
+Example ex_end_to_end_applies :
+  exists vp ns cs,
+    create_valueless_proof ex_wt file_empty (Some (mkReqBlock 2 2)) None None None = Ok vp /\
+    vp = mkVproof (t_fork ex_wt) (Some (mkDataHash 2 ns)) None None None /\
+    verify_proof ex_cr ex_rt file_empty
+      (mkProof (vp_fork vp) (Some (mkDataBlock 2 [4] ns)) None None None) ex_key = Ok cs /\
+    cs_upgraded cs = false /\ commitable ex_rt cs = true.
+Proof.
+  assert (E : exists vp, create_valueless_proof ex_wt file_empty (Some (mkReqBlock 2 2)) None None None = Ok vp /\
+                         forall ns, vp_block vp = Some (mkDataHash 2 ns) -> len [4] + lens ns <= u64_max).
+  { eexists. split; [vm_compute; reflexivity|]. intros ns [= <-]. apply N.leb_le. vm_compute. reflexivity. }
+  destruct E as (vp & E & Hsz). exists vp.
+  destruct (block_only_end_to_end ex_cr ex_T ex_wt file_empty ex_rt file_empty 2 2 [4] ex_key vp)
+    as (ns & cs & Hvp & _ & Hv & Hu & Hc & _).
+  - exact ex_writer_indexed.
+  - intros j n H. unfold ex_T. now rewrite H.
+  - exact E.
+  - constructor; [|constructor; [|constructor]]; unfold consistent_at; vm_compute; repeat split; discriminate.
+  - vm_compute. reflexivity.
+  - exact Hsz.
+  - eexists. split; vm_compute; reflexivity.
+  - exists ns, cs. auto.
+Qed.
+
+(* R3 on the instance: the replica's count for block 2 is a well-formed node count for the writer *)
+Example ex_missing_nodes_applies :
+  nodes_to_root (2 * 2) 2 (2 * 5) = Ok (it_index (it_up_n (N.to_nat 2) (it_new (2 * 2)))) /\
+  exists n, optional_node ex_rt file_empty (it_index (it_up_n (N.to_nat 2) (it_new (2 * 2)))) = Ok (Some n).
+Proof.
+  apply (missing_nodes_request_wellformed ex_rt file_empty 2 2 5).
+  - vm_compute. reflexivity.
+  - vm_compute. reflexivity.
+  - apply N.leb_le. vm_compute. reflexivity.
+  - vm_compute. reflexivity.
+Qed.
+
+(* the capstone on the instance: every premise of block_request_served holds together *)
+Lemma optional_node_empty_file t j n :
+  optional_node t file_empty j = Ok (Some n) -> nm_get j (t_unflushed t) = Some n.
+Proof.
+  unfold optional_node, node_get. destruct (nm_get j (t_unflushed t)) as [m|].
+  - destruct (node_blank m); [discriminate|]. intros [= <-]. reflexivity.
+  - destruct (mul64 "40 * index" NODE_SIZE j) as [off| | |]; cbn [bind]; try discriminate.
+    unfold f_read, file_empty. cbn [f_len]. destruct (off + NODE_SIZE <=? 0) eqn:E; [|discriminate].
+    unfold NODE_SIZE in E. lia.
+Qed.
+
+Example ex_block_request_served :
+  exists ns cs,
+    create_valueless_proof ex_wt file_empty (Some (mkReqBlock 2 2)) None None None
+      = Ok (mkVproof (t_fork ex_wt) (Some (mkDataHash 2 ns)) None None None) /\
+    length ns = N.to_nat 2 /\
+    verify_proof ex_cr ex_rt file_empty (mkProof (t_fork ex_wt) (Some (mkDataBlock 2 [4] ns)) None None None)
+                 ex_key = Ok cs /\
+    cs_upgraded cs = false /\ commitable ex_rt cs = true /\
+    (forall n, In n ns -> In n (cs_nodes cs)) /\ In (block_node ex_cr (2 * 2) [4]) (cs_nodes cs).
+Proof.
+  apply (block_request_served ex_cr ex_T ex_wt file_empty ex_rt file_empty 2 2 [4] ex_key).
+  - exact ex_writer_indexed.
+  - intros j n H. unfold ex_T. now rewrite H.
+  - assert (E : sib_indices (N.to_nat 2) (it_new (2 * 2)) = [6; 1]) by (vm_compute; reflexivity).
+    rewrite E. intros idx [<-|[<-|[]]]; eexists; vm_compute; reflexivity.
+  - intros j n H. apply optional_node_empty_file, nm_get_elements in H.
+    assert (C : forallb (fun kv => bytes_eqb (n_hash (snd kv)) (n_hash (ex_T (fst kv))))
+                        (nm_elements (t_unflushed ex_rt)) = true) by (vm_compute; reflexivity).
+    rewrite forallb_forall in C. apply C in H. cbn [fst snd] in H. now apply bytes_eqb_eq.
+  - vm_compute. reflexivity.
+  - vm_compute. reflexivity.
+  - apply N.leb_le. vm_compute. reflexivity.
+  - apply N.leb_le. vm_compute. reflexivity.
+  - vm_compute. reflexivity.
+  - constructor; [|constructor; [|constructor]]; unfold consistent_at; vm_compute; repeat split; discriminate.
+  - vm_compute. reflexivity.
+  - apply N.leb_le. vm_compute. reflexivity.
+Qed.
+
+(* R4 on the instance: all premises of upgrade_only_accepted hold, the replica accepts *)
+Example ex_upgrade_only_applies :
+  exists roots sg cs,
+    create_valueless_proof ex_wt file_empty None None None (Some (mkReqUpgrade 0 (t_length ex_wt)))
+      = Ok (mkVproof (t_fork ex_wt) None None None (Some (mkDataUpgrade 0 (t_length ex_wt) roots [] sg))) /\
+    verify_proof ex_cr empty_tree file_empty
+      (mkProof (t_fork ex_wt) None None None (Some (mkDataUpgrade 0 (t_length ex_wt) roots [] sg))) ex_key = Ok cs /\
+    cs_roots cs = roots /\ cs_length cs = t_length ex_wt /\ map n_index roots = [3; 8] /\
+    commitable empty_tree cs = true.
+Proof.
+  assert (E : exists vp, create_valueless_proof ex_wt file_empty None None None
+                           (Some (mkReqUpgrade 0 (t_length ex_wt))) = Ok vp /\
+              match vp_upgrade vp with
+              | Some u => map n_index (du_nodes u) = [3; 8] /\ length (du_signature u) = 64%nat /\
+                          t_byte_length empty_tree + lens (du_nodes u) <=? u64_max = true /\
+                          cr_verify ex_cr ex_key (signable (tree_hash ex_cr (du_nodes u)) (t_length ex_wt)
+                                                           (t_fork ex_wt)) (du_signature u) = true
+              | None => False
+              end).
+  { eexists. split; [vm_compute; reflexivity|]. vm_compute. repeat split. }
+  destruct E as (vp & E & Hu).
+  destruct (upgrade_only_accepted ex_cr ex_wt file_empty empty_tree file_empty ex_key vp
+              ex_writer_indexed E eq_refl eq_refl) as (roots & sg & -> & _ & _ & _ & Hacc).
+  cbn [vp_upgrade du_nodes du_signature] in Hu. destruct Hu as (H1 & H2 & H3 & H4).
+  destruct Hacc as (cs & Hv & R1 & R2 & _ & _ & _ & _ & _ & _ & _ & R3); [lia | exact H2 | exact H4 |].
+  exists roots, sg, cs. repeat split; assumption.
+Qed.
+
+(* Core level: a writer core with five blocks; a read-only replica core (public key only) applies
+   the writer's upgrade-only proof, asks for block 2 with its own missing-node count, applies the
+   writer's block proof, and reads back the writer's block *)
+Definition ex_open (kp : keypair) : option (core * world) :=
+  match core_open ex_cr (Some kp) false disk_empty with
+  | (d, _, Ok c0) => Some (c0, mkWorld d [] [])
+  | _ => None
+  end.
+Definition ex_run {A} (s : option (core * world)) (k : M A) : option (core * world) * option (res A) :=
+  match s with
+  | Some (c, w) => match k c w with (c', w', r) => (Some (c', w'), Some r) end
+  | None => (None, None)
+  end.
+Definition ex_W := fst (ex_run (ex_open (mkKeypair ex_key (Some ex_key))) (core_append ex_cr (Some true) ex_blocks)).
+Definition ex_R0 := ex_open (mkKeypair ex_key None).
+Definition ex_R1 :=
+  match snd (ex_run ex_W (core_create_proof None None None (Some (mkReqUpgrade 0 5)))) with
+  | Some (Ok (Some pf)) => ex_run ex_R0 (core_apply_proof ex_cr (Some false) pf)
+  | _ => (None, None)
+  end.
+Definition ex_R2 :=
+  match snd (ex_run (fst ex_R1) (core_missing_nodes 2)) with
+  | Some (Ok k) =>
+      match snd (ex_run ex_W (core_create_proof (Some (mkReqBlock 2 k)) None None None)) with
+      | Some (Ok (Some pf)) => ex_run (fst ex_R1) (core_apply_proof ex_cr (Some false) pf)
+      | _ => (None, None)
+      end
+  | _ => (None, None)
+  end.
+
+Example ex_core_replication :
+  snd ex_R1 = Some (Ok true) /\
+  snd (ex_run (fst ex_R1) (core_missing_nodes 2)) = Some (Ok 2) /\
+  snd ex_R2 = Some (Ok true) /\
+  snd (ex_run (fst ex_R2) (core_get 2)) = Some (Ok (Some [4])) /\
+  snd (ex_run ex_W (core_get 2)) = Some (Ok (Some [4])) /\
+  snd (ex_run (fst ex_R2) (core_get 3)) = Some (Ok None).
+Proof. vm_compute. repeat split. Qed.
+
+(* ====================================================================================== *)
+Print Assumptions create_proof_no_fabrication.
+Print Assumptions core_create_proof_inv.
+Print Assumptions block_only_proof_shape.
+Print Assumptions required_node_index.
+Print Assumptions unflushed_indexed_add_node.
+Print Assumptions unflushed_indexed_add_all.
+Print Assumptions unflushed_indexed_commit.
+Print Assumptions unflushed_indexed_flush.
+Print Assumptions unflushed_indexed_open.
+Print Assumptions climb_plain_ok.
+Print Assumptions climb_ref_honest.
+Print Assumptions block_only_climb_agrees.
+Print Assumptions block_only_root_honest.
+Print Assumptions block_only_accepted.
+Print Assumptions verify_tree_frame.
+Print Assumptions verify_proof_commitable_block_only.
+Print Assumptions block_only_end_to_end.
+Print Assumptions missing_loop_inv.
+Print Assumptions missing_nodes_gives_stored_root.
+Print Assumptions missing_nodes_request_wellformed.
+Print Assumptions it_full_root_tree.
+Print Assumptions upgrade_lockstep.
+Print Assumptions upgrade_only_proof_shape.
+Print Assumptions upgrade_only_accepted.
+Print Assumptions upgrade_loop_full_roots.
+Print Assumptions upgrade_only_roots_are_full_roots.
+Print Assumptions missing_nodes_head_case_rejected.
+Print Assumptions block_only_proof_created.
+Print Assumptions block_request_served.
+Print Assumptions ex_writer_ok.
+Print Assumptions ex_writer_indexed.
+Print Assumptions ex_replica_synced.
+Print Assumptions ex_missing.
+Print Assumptions ex_block_proof_shape.
+Print Assumptions ex_block_proof_accepted.
+Print Assumptions ex_block_proof_tampered.
+Print Assumptions ex_end_to_end_applies.
+Print Assumptions ex_missing_nodes_applies.
+Print Assumptions ex_block_request_served.
+Print Assumptions ex_upgrade_only_applies.
+Print Assumptions ex_core_replication.
